@@ -819,17 +819,37 @@ def render_broken(stem, kind):
     return f'subroutine {stem}_b(a)\n  integer, intent(sideways) :: a\n  a = 1\nend subroutine {stem}_b\n'
 
 
+LINT_KINDS = ['viol', 'broken', 'clean', 'viol', 'broken', 'viol']
+LINT_DIRS = ['', 'sub', '', 'sub/deep', 'other']
+
+
 @st.composite
-def lint_file(draw, idx):
-    """one file of a C42 file set"""
+def lint_file(draw, idx, rot=None):
+    """
+    one file of a C42 file set
+
+    ``rot``: when given, kind / directory / suffix / selection are drawn as an offset into a rotation that starts
+    at ``idx + rot``, so that the simplest example Hypothesis can draw (all offsets 0) is already a mixed file set
+    that differs from shard to shard (a shard of a quick run only evaluates a handful of file sets).
+    """
     stem = f'f{idx:02d}{draw(st.sampled_from(["kern", "phys", "util", "geo"]))}'
-    kind = draw(st.sampled_from(['viol', 'broken', 'clean', 'viol', 'broken', 'viol']))
-    f = {
-        'stem': stem, 'kind': kind,
-        'suffix': draw(st.sampled_from(['.F90', '.f90'])),
-        'dir': draw(st.sampled_from(['', '', 'sub', 'sub/deep', 'other'])),
-        'selected': draw(st.integers(0, 5)) != 5,
-    }
+    if rot is None:
+        kind = draw(st.sampled_from(LINT_KINDS))
+        f = {
+            'stem': stem, 'kind': kind,
+            'suffix': draw(st.sampled_from(['.F90', '.f90'])),
+            'dir': draw(st.sampled_from(['', '', 'sub', 'sub/deep', 'other'])),
+            'selected': draw(st.integers(0, 5)) != 5,
+        }
+    else:
+        k = idx + rot
+        kind = LINT_KINDS[(k + draw(st.integers(0, len(LINT_KINDS) - 1))) % len(LINT_KINDS)]
+        f = {
+            'stem': stem, 'kind': kind,
+            'suffix': ['.F90', '.f90'][(k // 2 + draw(st.integers(0, 1))) % 2],
+            'dir': LINT_DIRS[(k + draw(st.integers(0, len(LINT_DIRS) - 1))) % len(LINT_DIRS)],
+            'selected': (k + draw(st.integers(0, 5))) % 6 != 5,
+        }
     if kind == 'viol':
         prof = {'maxlen': 3, 'members': True, 'functions': True, 'ubound': True}
         f['model'] = draw(file_model(stem, prof))
